@@ -162,6 +162,9 @@ func (m *FlowMon) OnEvent(c *eng.Ctx, ms eng.MState, ev *eng.Event) eng.MState {
 			s.obs, s.cut = nil, false
 			s.sawLookup = false
 		default:
+			if isPkgVarCall(ev) && !m.passesNode(ev) {
+				break // an internal trace hook that is not handed any node
+			}
 			if m.hookCall(s, ev, T) {
 				// an optional function-typed field of the flow (observer / hook) called with nodes of the
 				// path only: user code, not a node; it may cancel the context, so what was observed
@@ -205,6 +208,80 @@ func (m *FlowMon) hookPresenceTest(cond *eng.Term) bool {
 	}
 	x, y := cond.A[0], cond.A[1]
 	return (m.flowHookField(x) && y.K == eng.KNil) || (m.flowHookField(y) && x.K == eng.KNil)
+}
+
+// passesNode: some argument of the call has (or implements) the Node type.
+func (m *FlowMon) passesNode(ev *eng.Event) bool {
+	ci, ok := ev.Instr.(ssa.CallInstruction)
+	if !ok || m.R.Node == nil {
+		return true
+	}
+	iface, _ := m.R.Node.Underlying().(*types.Interface)
+	for _, a := range ci.Common().Args {
+		if types.Identical(a.Type(), m.R.Node) || (iface != nil && types.Implements(a.Type(), iface)) {
+			return true
+		}
+		if sl, ok := a.Type().Underlying().(*types.Slice); ok { // variadic ...any carrying values
+			if _, isIface := sl.Elem().Underlying().(*types.Interface); isIface && variadicMayCarry(a, m.R.Node, iface) {
+				return true
+			}
+		}
+	}
+	return false
+}
+
+// variadicMayCarry: the variadic argument (a slice over a fresh array filled by the caller) may
+// hold a value of the node type; anything the scan does not understand counts as "may".
+func variadicMayCarry(arg ssa.Value, node types.Type, iface *types.Interface) bool {
+	if c, ok := arg.(*ssa.Const); ok && c.IsNil() {
+		return false
+	}
+	sl, ok := arg.(*ssa.Slice)
+	if !ok {
+		return true
+	}
+	al, ok := sl.X.(*ssa.Alloc)
+	if !ok || al.Referrers() == nil {
+		return true
+	}
+	for _, ref := range *al.Referrers() {
+		ia, ok := ref.(*ssa.IndexAddr)
+		if !ok {
+			if ref == ssa.Instruction(sl) {
+				continue
+			}
+			return true
+		}
+		if ia.Referrers() == nil {
+			continue
+		}
+		for _, r2 := range *ia.Referrers() {
+			st, ok := r2.(*ssa.Store)
+			if !ok {
+				return true
+			}
+			mi, ok := st.Val.(*ssa.MakeInterface)
+			if !ok {
+				return true
+			}
+			t := mi.X.Type()
+			if types.Identical(t, node) || (iface != nil && types.Implements(t, iface)) {
+				return true
+			}
+			if _, isIface := t.Underlying().(*types.Interface); isIface {
+				return true
+			}
+			if st, isStruct := t.Underlying().(*types.Struct); isStruct {
+				for i := 0; i < st.NumFields(); i++ {
+					ft := st.Field(i).Type()
+					if _, isIface := ft.Underlying().(*types.Interface); isIface || types.Identical(ft, node) {
+						return true
+					}
+				}
+			}
+		}
+	}
+	return false
 }
 
 // hookCall: a call of a function-typed field of the flow whose node-typed arguments are nodes of
